@@ -321,6 +321,16 @@ NameSchemas ==
   \cup {Sch(AllKeys, "comma", "dash", WithName(WithName(fs, 1, n), 3, n2)) : n \in GoodNames, n2 \in GoodNames,
                                                              fs \in Three({DefaultSpec("integer")})}
 
+(* the optional free-text "unit" of a field (documentation only: it takes no part in parsing the data).  Classes of  *)
+(* unit text that are plain YAML scalars: a word, a ratio, text with an apostrophe, with a quote in brackets, with a    *)
+(* blank, a number-like text.  Every position of 1..2-field schemas.                                                   *)
+UnitClasses == {"word", "ratio", "apostrophe", "parenquote", "spaced", "numberlike"}
+WithUnit(fs, i, u) == [fs EXCEPT ![i] = [unit |-> u] @@ @]
+UnitSchemas ==
+       {Sch(AllKeys, "comma", "dash", WithUnit(fs, 1, u)) : u \in UnitClasses, fs \in One(Defaults)}
+  \cup {Sch(AllKeys, dm[1], dm[2], WithUnit(fs, i, u)) : u \in UnitClasses, i \in 1..2, dm \in {<<"tab", "empty">>, <<"squote", "word">>},
+                                                        fs \in Two({DefaultSpec("string"), DefaultSpec("float")})}
+
 FaultBases ==
   IF Thorough
   THEN {Sch(AllKeys, dm[1], dm[2], fs) : dm \in {<<"comma", "dash">>, <<"tab", "empty">>, <<"pipe", "word">>},
@@ -336,7 +346,7 @@ FaultBases ==
 CellKeys == {[f |-> f, m |-> m] : f \in FieldSpecs, m \in Markers}
 
 Init == \/ st \in {[kind |-> "cells", f |-> k.f, m |-> k.m] : k \in CellKeys}
-        \/ st \in {[kind |-> "valid", s |-> s] : s \in ValidSchemas \cup NameSchemas}
+        \/ st \in {[kind |-> "valid", s |-> s] : s \in ValidSchemas \cup NameSchemas \cup UnitSchemas}
         \/ st \in {[kind |-> "natural", s |-> s] : s \in NaturalInvalid}
         \/ st \in UNION {{[kind |-> "fault", base |-> s, ft |-> ft] : ft \in FaultsOf(s)} : s \in FaultBases}
 Next == UNCHANGED st
